@@ -73,9 +73,16 @@ def k_k3(rec):
 KNOWN = {"C09-altdiff-127": k_k3}
 
 
+def oracle_mov(mov):
+    s = mov_spec(mov)
+    return "None" if s is None else fr(s)
+
+
 def cases(ctx):
     rng = ctx.rng
     P = "h:adapters.pick"
+    for mov in range(128):
+        yield dict(op="spec.mov %d" % mov, real=("h:props.C09.oracle_mov", [mov]), tag="spec-tie", trivial=True)
 
     def tc19(st, s_ew, v_ew, s_ns, v_ns, vrsrc, s_vr, vr, dsign=None, diff=None):
         f = [(5, 3, st), (13, 1, s_ew), (14, 10, v_ew), (24, 1, s_ns), (25, 10, v_ns), (35, 1, vrsrc), (36, 1, s_vr), (37, 9, vr)]
